@@ -281,6 +281,7 @@ package lang
 //@   requires p != nil
 //@   at store Stderr#1 assert p.Stderr == p.Stdout
 //@   at store Stderr#2 assert p.Stderr == pipeǂ1
+//@   at store Stdout#1 assert p.Stdout == p.Next.Stderr
 //@   at store Stdout#2 assert p.Stdout == pipeǂ2
 
 // ---- C22: command resolution order (executeProcess) ---------------------------------------------------
